@@ -54,15 +54,6 @@ theorem median_balanced (T : Nat) (ws : List Int) (minPw maxPw : Int) (pos : Nat
   obtain ⟨a, _, c⟩ := median_bal {} T ws minPw maxPw pos l (by simp) hlen h0 h
   exact ⟨a, c⟩
 
-theorem sum_nonneg_of (ws : List Int) (hnn : ∀ w ∈ ws, 0 ≤ w) : 0 ≤ ws.sum := by
-  induction ws with
-  | nil => simp
-  | cons a l ih =>
-    rw [List.sum_cons]
-    have := hnn a List.mem_cons_self
-    have := ih (fun b hb => hnn b (List.mem_cons_of_mem _ hb))
-    omega
-
 /-- The property's balance clause for one bisection: with thresholds meeting
 `Bracket` for `total = Σ ws` and non-negative weights, the low side is within
 1 % of half (plus one unit), or the cut is at the low edge of the slab that
@@ -164,30 +155,6 @@ theorem boxes {D : Nat} {P : SubGrid → Nat → Nat → Prop} {n : Nat} {t : Tr
     fun pos' hin' => partOf_eq_iff h hc pos pos' hin hin'⟩⟩
   have := partOfAux_lt h pos 0
   simpa [partOf] using this
-
-theorem rcb2_unfold (cfg : Cfg) (T : Nat) (bracket : Int → Option (Int × Int)) (w h : Nat) (ws : Array Int)
-    (plen iter : Nat) (ids : List Nat) (hr : rcb2 cfg T bracket w h ws plen iter = .ok ids) :
-    ∃ t, recurse { D := 2, cfg, T, bracket, aw := axisWeights2 w ws } iter (wholeGrid (vec2 (w, h)))
-        ws.toList.sum 1 = .ok t ∧
-      ids = (List.range plen).map fun i => partOf 2 t (vec2 (positionOf2 w i)) 1 := by
-  simp only [rcb2] at hr
-  split at hr
-  · cases hr
-  · next t ht =>
-    simp only [Except.ok.injEq] at hr
-    exact ⟨t, ht, hr.symm⟩
-
-theorem rcb3_unfold (cfg : Cfg) (T : Nat) (bracket : Int → Option (Int × Int)) (w h d : Nat) (ws : Array Int)
-    (plen iter : Nat) (ids : List Nat) (hr : rcb3 cfg T bracket w h d ws plen iter = .ok ids) :
-    ∃ t, recurse { D := 3, cfg, T, bracket, aw := axisWeights3 w h ws } iter (wholeGrid (vec3 (w, h, d)))
-        ws.toList.sum 1 = .ok t ∧
-      ids = (List.range plen).map fun i => partOf 3 t (vec3 (positionOf3 w h i)) 1 := by
-  simp only [rcb3] at hr
-  split at hr
-  · cases hr
-  · next t ht =>
-    simp only [Except.ok.injEq] at hr
-    exact ⟨t, ht, hr.symm⟩
 
 /-- `Grid::<2>::rcb`: the ids are `part_of` through a recursive bisection of the
 grid of depth at most `iter_count`, axes cyclic starting at coordinate 1, every
@@ -320,7 +287,6 @@ end Coupe.GridRcb
 #print axioms Coupe.GridRcb.median_terminates
 #print axioms Coupe.GridRcb.median_prefix
 #print axioms Coupe.GridRcb.median_balanced
-#print axioms Coupe.GridRcb.sum_nonneg_of
 #print axioms Coupe.GridRcb.median_half_mark
 #print axioms Coupe.GridRcb.median_hangs_T1
 #print axioms Coupe.GridRcb.median_hangs_T1_before_fix
@@ -333,8 +299,6 @@ end Coupe.GridRcb
 #print axioms Coupe.GridRcb.cell_inBox2
 #print axioms Coupe.GridRcb.cell_inBox3
 #print axioms Coupe.GridRcb.boxes
-#print axioms Coupe.GridRcb.rcb2_unfold
-#print axioms Coupe.GridRcb.rcb3_unfold
 #print axioms Coupe.GridRcb.rcb2_struct
 #print axioms Coupe.GridRcb.rcb3_struct
 #print axioms Coupe.GridRcb.grid_ids_lt
